@@ -6,7 +6,7 @@ POOL4 = [{"hosts": 2}, {"extend": 0, "paths": 1}, {"extend": 1, "paths": 1}, {"h
 POOL5 = POOL4 + [{"extend": 0, "paths": 1}]
 
 
-def build(E, P):
+def build(E, P, after_step=None):
     pool = typed_pool(E, P.get("pool", POOL4), L=P.get("L", 1))
     defaults = P.get("defaults", ["never"])
     default = defaults[E.choose("default", len(defaults))]
@@ -17,6 +17,8 @@ def build(E, P):
     h = History(E, t, ref, pool, P["alphabet"], P)
     h.prelude(P.get("prelude"))
     for i in range(P["n"]):
+        if after_step is not None and P.get("every_step", True) and (i > 0 or P.get("prelude")):
+            after_step(t, h)
         h.step(i)
     return t, h, pool
 
